@@ -278,6 +278,10 @@ def handler_sets(tier: str) -> list[tuple[str, list[dict]]]:
                                                          dict(id='dm2', on='daemon', reaction='exits', lifetime=9.0)]))
     sets.append(('daemon[exits]+timer', [dict(id='dm', on='daemon', reaction='exits', lifetime=2.0, **filt),
                                          dict(id='tm', on='timer', interval=4.0, script=['ok~1'], **filt)]))
+    # a SYNCHRONOUS daemon (a thread: deaf to the flag here, cannot be interrupted): it stays one instance however often it is told to stop
+    for duration, backoff, timeout in ((12.0, None, 30.0), (12.0, 2.0, 30.0), (9.0, None, 3.0)):
+        sets.append((f'daemon[sync,{duration},{backoff},{timeout}]',
+                     [dict(id='dm', on='daemon', body='sync', duration=duration, cancellation_backoff=backoff, cancellation_timeout=timeout, **filt)]))
     for name, tcfg in (('interval', dict(interval=4.0)), ('idle', dict(idle=3.0)), ('both', dict(interval=4.0, idle=3.0)), ('neither', dict()),
                        ('interval+initial', dict(interval=4.0, initial_delay=1.0)), ('idle+initial', dict(idle=3.0, initial_delay=1.0))):
         sets.append((f'timer[{name}]', [dict(id='tm', on='timer', script=['ok~1'], **tcfg, **filt)]))
